@@ -1007,7 +1007,10 @@ pub fn host(rep: &common::Report, prop: &str, thorough: bool) {
             solos += 1;
             let again = Arc::new(run_local(run_schedule(cfg, std::slice::from_ref(&p), &solo_schedule(&p))));
             if cfg.fail_calls.is_empty() && full_view(&out.recs[0]) != full_view(&again.recs[0]) {
-                common::machinery(&format!("world: two runs of the same client alone differ ({}): {} / {}", p.label, full_view(&out.recs[0]), full_view(&again.recs[0])));
+                // (the harness is deterministic on the unchanged tree - zero differences in thousands of schedules -;
+                // if the subject itself answers the same client differently from run to run, the comparisons below
+                // are not meaningful: said once, and the absolute oracles still apply)
+                rep.inconclusive(&format!("world: two runs of the same client alone differ ({}): {} / {}", p.label, full_view(&out.recs[0]), full_view(&again.recs[0])));
             }
             visit(&Situation { cfg: cfg.clone(), plans: vec![p.clone()], schedule: solo_schedule(&p), out, alone: vec![again] });
         }
@@ -1018,6 +1021,13 @@ pub fn host(rep: &common::Report, prop: &str, thorough: bool) {
             rep.violation(common::Violation { key: k, text: t, replay, weight: 6_300_000 });
         }
         rep.set("world_logins_one_after_the_other_on_one_listener", json!(logins));
+    }
+    if prop == "C04" {
+        let (crowd, viols) = crowd_after_idle(if thorough { 20_000 } else { 6_000 });
+        for (k, t, replay) in viols {
+            rep.violation(common::Violation { key: k, text: t, replay, weight: 6_400_000 });
+        }
+        rep.set("world_crowd_of_distinct_sources_after_an_idle_time", json!(crowd));
     }
     if prop == "C03" {
         let (logins, viols) = discovery_over_time();
@@ -1212,6 +1222,60 @@ pub fn many_logins(n: usize) -> (u64, Vec<(String, String, Value)>) {
                     break;
                 }
             }
+        }
+        running.stop.cancel();
+        let _ = tokio::time::timeout(Duration::from_secs(3), running.done).await;
+    });
+    (n as u64, out)
+}
+
+/// C04 at scale: whatever the listener keeps per client address - with a one second limiter window it is cleaned up
+/// every two seconds - five early visitors, a pause of 2.3 s, then 6 000 clients announcing 6 000 different sources.
+/// Nothing the crowd sends may crash a task of the router, and a later, ordinary client is served.
+pub fn crowd_after_idle(n: usize) -> (u64, Vec<(String, String, Value)>) {
+    install_panic_counter();
+    let mut out = vec![];
+    run_local(async {
+        let before = PANICS.load(Ordering::SeqCst);
+        let adapters = Arc::new(WorldAdapters::new(vec![]));
+        let cfg = ListenerCfg { proxy: Some((true, true)), limiter: Some((1, 5)), timeout: Duration::from_secs(20), ..Default::default() };
+        let running = start_listener_with(&cfg, adapters).await;
+        let addr = running.addr;
+        let visit = move |i: usize| async move {
+            let src: SocketAddr = format!("10.{}.{}.{}:4000", 50 + i / 62_500, (i / 250) % 250, i % 250 + 1).parse().unwrap();
+            let Ok(mut c) = McClient::connect(addr, Some("127.0.0.7".parse().unwrap())).await else { return false };
+            let _ = c.send_raw(&proxy_v2(src, addr)).await;
+            c.status_exchange(Duration::from_millis(1500)).await.is_ok()
+        };
+        for i in 0..5 {
+            let _ = visit(i).await;
+        }
+        tokio::time::sleep(Duration::from_millis(2_300)).await;
+        let mut tasks = vec![];
+        let served = Arc::new(AtomicUsize::new(0));
+        for t in 0..8usize {
+            let served = served.clone();
+            tasks.push(tokio::task::spawn_local(async move {
+                let mut i = 100 + t;
+                while i < 100 + n {
+                    if visit(i).await {
+                        served.fetch_add(1, Ordering::SeqCst);
+                    }
+                    i += 8;
+                }
+            }));
+        }
+        for t in tasks {
+            let _ = t.await;
+        }
+        let late = visit(1_000_000).await;
+        let panics = PANICS.load(Ordering::SeqCst) - before;
+        let replay = json!({"world": {"crowd_after_idle": n}});
+        if panics > 0 {
+            out.push(("world:panic".to_string(), format!("{panics} panics in the router's tasks while {n} clients announcing {n} different sources came by (after five early visitors and an idle time of two limiter windows); {} of them were served", served.load(Ordering::SeqCst)), replay.clone()));
+        }
+        if !late {
+            out.push(("world:later-connection-not-served".to_string(), format!("after {n} clients announcing {n} different sources, a fresh status client was not served ({} of the crowd were)", served.load(Ordering::SeqCst)), replay));
         }
         running.stop.cancel();
         let _ = tokio::time::timeout(Duration::from_secs(3), running.done).await;
